@@ -37,8 +37,13 @@ ASSUMPTIONS = [
     "generated symlink targets are relative, normalised and free of '..' (other targets are outside the input class for this transport)",
     "upload-ignored = path or one of its parent directories matches a .bzrignore-upload pattern of the uploaded revision; patterns come "
     "from a pool with unambiguous glob meaning (basename, *.ext, full path) matched by a 10-line model, not by breezy.globbing (C48 owns that)",
-    "ignored paths, remote ancestors of ignored leftovers, and root .bzrignore / .bzrignore-upload (skipped by full upload by documented "
-    "intent) are don't-care; a --full upload over an existing remote is not required to delete stale paths that were there before",
+    "ignored paths (now, or at any earlier upload to the same remote directory: their remote state is unspecified from then on), remote "
+    "ancestors of ignored leftovers, and root .bzrignore / .bzrignore-upload (skipped by full upload by documented intent) are don't-care; "
+    "a --full upload over an existing remote is not required to delete stale paths that were there before (they become don't-care too); "
+    "an exception whose uploader operation touches such a path is counted, not judged",
+    "failure keys: a failure is first explained by what the delta did to the failing path (closed list of mechanism families, see "
+    "fixes/C43-*.md), then by a known-bad shape elsewhere in the same delta ('other-failure-in-delta-with:...'), else it keeps the detailed "
+    "key <delta class>:<symptom> / raised:<exception>@<uploader operation>:<delta class>; plain file<->file swaps never fall into a family",
     "expected entries are read through the public Tree API of the RevisionTree; exec bit = owner-x of the remote file",
     "after a failed or refused step the plan continues on a fresh remote (full upload), so one finding does not hide later steps",
 ]
@@ -505,7 +510,7 @@ def _exc_key(e, delta, snap_new, taint):
     base = delta.cls.get(fid, "unchanged")
     shapes = _delta_shapes(delta)
     if shapes:
-        return "other-failure-in-delta-with:%s" % shapes[0], unspecified
+        return "other-failure-in-delta-with:%s:raised:%s@%s" % (shapes[0], exc, opname), unspecified
     return "raised:%s@%s:%s" % (exc, opname, base), unspecified
 
 
@@ -573,7 +578,7 @@ def _mismatch_key(delta, p, cls, sym):
         return fam
     shapes = _delta_shapes(delta)
     if shapes:
-        return "other-failure-in-delta-with:%s" % shapes[0]
+        return "other-failure-in-delta-with:%s:%s" % (shapes[0], sym)
     return "%s:%s" % (cls, sym)
 
 
@@ -607,6 +612,7 @@ def case(ctx):
     cur = None  # index of the revision the remote holds
     steps = len(revs) + (2 if ctx.tier == "quick" else 6)
     i = rng.choice([0, 0, 1])
+    tgt_after_reset = i
     for step in range(steps):
         # ---- choose the next move
         if cur is None:
